@@ -432,7 +432,7 @@ def floatLogic (u : Uni) (line col : Nat) (src : List Char) : FloatRes :=
     let suffix := m.suf.length
     let column := col + m.const.length
     let badhex := stripChars (Generated.hexadecimalDigits.toList ++ ['.']) m.const
-    if m.kind == .exponent && !goodExponent u m.exp then
+    if m.kind != .hexadecimal && !m.exp.isEmpty && !goodExponent u m.exp then
       .tok m (some (mkDiag "BAD_EXPONENT" .error [⟨line, column, some (m.exp.length + suffix), none⟩]))
     else if m.kind == .hexadecimal && !m.const.contains '.' && m.exp.isEmpty then .noMatch
     else if m.kind == .hexadecimal && !(badhex == ['x'] || badhex == ['X']) then
